@@ -119,6 +119,45 @@ UNITS.append(dict(name="c02_rrt_path_construction", template="C02/crrt.c", mode=
                   functions=["ompl::control::RRT::solve (solution path construction)"],
                   canaries=[dict(name="approximate_flag_dropped", where="body:path", rx=r"approximate = true;", repl="")]))
 
+# ---------------------------------------------------------------- control::Syclop::solve: solution record and report
+SYF = "src/ompl/control/planners/syclop/src/Syclop.cpp"
+SY_RULES = [(r"solved = goal->isSatisfied\(motion->state, &distance\);", "solved = GOAL_SAT(motion, &distance);", 0),
+            (r"std::vector<const Motion \*> mpath;", "mpath_n = 0;", 0), (r"mpath\.push_back\(solution\);", "MPATH_PUSH(solution);", 0), (r"solution->parent", "M_parent[solution]", 0),
+            (r"auto path\(std::make_shared<PathControl>\(si_\)\);", "path_n = 0;", 0), (r"mpath\.size\(\)", "mpath_n", 0), (r"mpath\[i\]->parent", "M_parent[mpath[i]]", 0),
+            (r"path->append\(mpath\[i\]->state, mpath\[i\]->control, mpath\[i\]->steps \* siC_->getPropagationStepSize\(\)\);", "PATH_APPEND3(mpath[i], mpath[i], FMULSTEP(M_steps[mpath[i]], STEPSIZE));", 0),
+            (r"path->append\(mpath\[i\]->state\);", "PATH_APPEND1(mpath[i]);", 0), (r"pdef_->addSolutionPath\(path, !solved, goalDist, getName\(\)\);", "ADD_SOLUTION(!solved, goalDist);", 0),
+            (r"bool addedSolution = false;", "addedSolution = false;", 0), (r"\bnullptr\b", "NIL", 0)]
+UNITS.append(dict(name="c02_syclop_solution_record", template="C02/syclop_record.c", mode="plain", entry="h_syclop", flags=["--bounds-check", "--pointer-check", "--signed-overflow-check", "--conversion-check"], unwind=8, level="bounded",
+                  bound="<= 3 examined motions on a chain of 4", backend="cadical", timeout=300, functions=["ompl::control::Syclop::solve (solution record and report)"],
+                  sources=[dict(name="record", file=SYF, begin=r"solved = goal->isSatisfied\(motion->state, &distance\);", end=r"const int newRegion = decomp_->locateRegion", rules=SY_RULES, loops={"allow_uncontracted": True}),
+                           dict(name="report", file=SYF, begin=r"bool addedSolution = false;", end=r"return addedSolution \? base::PlannerStatus::EXACT_SOLUTION", rules=SY_RULES, loops={"allow_uncontracted": True})],
+                  canaries=[dict(name="exact_only_if_also_closest", where="body:record", rx=r"if \(solved\)\s*\{\s*goalDist = distance;\s*solution = motion;\s*break;\s*\}", repl="if (solved && distance < goalDist) { goalDist = distance; solution = motion; } if (solved) break;")]))
+
+# ---------------------------------------------------------------- control::PathControl::interpolate / check (anchor src/ompl/control/src/PathControl.cpp)
+PCF = "src/ompl/control/src/PathControl.cpp"
+PC_RULES = [
+    (r"const auto \*si = static_cast<const SpaceInformation \*>\(si_\.get\(\)\);", "", 0), (r"double res = si->getPropagationStepSize\(\);", "double res = RES;", 0),
+    (r"std::vector<base::State \*> newStates;", "BigS newStates; newStates.n = 0;", 0), (r"std::vector<Control \*> newControls;", "BigC newControls; newControls.n = 0;", 0), (r"std::vector<double> newControlDurations;", "BigD newControlDurations; newControlDurations.n = 0;", 0),
+    (r"auto steps = \((?:int|unsigned int)\)floor\(0\.5 \+ controlDurations_\[i\] / res\);", "int steps = ROUND_STEPS(controlDurations_[i], res);", 0), (r"assert\(steps >= 0\);", "", 0),
+    (r"std::vector<base::State \*> istates;", "SVec istates; istates.n = 0;", 0), (r"si->propagate\(states_\[i\], controls_\[i\], steps, istates, true\);", "PROPAGATE(states_[i], controls_[i], steps, &istates);", 0),
+    (r"!istates\.empty\(\)", "(istates.n != 0)", 0), (r"si_->freeState\(istates\.back\(\)\);", "FREE_STATE(istates.v[istates.n - 1]);", 0), (r"istates\.pop_back\(\);", "istates.n--;", 0),
+    (r"newStates\.insert\(newStates\.end\(\), istates\.begin\(\), istates\.end\(\)\);", "for (unsigned q_ = 0; q_ < istates.n; ++q_) PUSH(newStates, istates.v[q_]);", 0),
+    (r"(newStates|newControls|newControlDurations)\.push_back\(([^;]+)\);", r"PUSH(\1, \2);", 0), (r"si->cloneControl\(", "CLONE_CONTROL(", 0),
+    (r"states_\.swap\(newStates\);", "for (unsigned q_ = 0; q_ < newStates.n; ++q_) states_[q_] = newStates.v[q_]; states__size = newStates.n;", 0),
+    (r"controls_\.swap\(newControls\);", "for (unsigned q_ = 0; q_ < newControls.n; ++q_) controls_[q_] = newControls.v[q_]; controls__size = newControls.n;", 0),
+    (r"controlDurations_\.swap\(newControlDurations\);", "for (unsigned q_ = 0; q_ < newControlDurations.n; ++q_) controlDurations_[q_] = newControlDurations.v[q_]; controlDurations__size = newControlDurations.n;", 0),
+    (r"states_\.size\(\)", "states__size", 0), (r"controls_\.size\(\)", "controls__size", 0), (r"controls_\.empty\(\)", "(controls__size == 0)", 0),
+    (r"si_?->isValid\(", "IS_VALID(", 0), (r"base::State \*next = si_->allocState\(\);", "StateRef next = ALLOC_STATE();", 0), (r"si->propagateWhileValid\(states_\[i\], controls_\[i\], steps, next\)", "PWV(states_[i], controls_[i], steps, next)", 0),
+    (r"PWV\(([^;]*?)\) != steps", r"PWV(\1) != (unsigned)steps", 0),
+    (r"si->distance\(next, states_\[i \+ 1\]\)", "DISTANCE(next, states_[i + 1])", 0), (r"std::numeric_limits<float>::epsilon\(\)", "1.1920929e-07", 0), (r"si_->freeState\(next\);", "live_next--;", 0),
+]
+PC_SRC = [dict(name="interpolate", file=PCF, sig=r"void ompl::control::PathControl::interpolate\(\)", rules=PC_RULES, loops={"allow_uncontracted": True}),
+          dict(name="check", file=PCF, sig=r"bool ompl::control::PathControl::check\(\) const", rules=PC_RULES, loops={"allow_uncontracted": True})]
+for _h, _needs, _can in (("pc_interpolate", ["interpolate"], [dict(name="one_intermediate_state_too_many", where="body:interpolate", rx=r"istates\.n--;", repl=";")]),
+                         ("pc_check", ["check"], [dict(name="next_state_not_compared", where="body:check", rx=r"\|\|\s*DISTANCE\(next, states_\[i \+ 1\]\) > 1\.1920929e-07", repl="")])):
+    UNITS.append(dict(name="c02_pathcontrol_" + _h[3:], template="C02/pathcontrol.c", mode="plain", entry="h_" + _h, sources=PC_SRC, needs=_needs, flags=["--bounds-check", "--pointer-check", "--signed-overflow-check"], unwind=10,
+                      unwindset={"any_path.2": 34, "h_pc_interpolate.5": 34}, level="bounded", bound="<= 2 controls, <= 3 steps per control", backend="cadical", timeout=600, functions=["ompl::control::PathControl::" + _h[3:]], canaries=_can))
+
 ASSUMPTIONS = ["the user's state propagator and validity checker are deterministic callbacks; states/controls are abstract objects with ghost counters",
                "bounded: |steps| <= 4, at most 3 control samples; control dimension <= 64", "RNG contract uniformReal in [a,b)",
                "planner fragments: motions/states/controls are references with ghost content ids; the goal, samplers and propagators are arbitrary"]
